@@ -22,8 +22,15 @@ var alphabet = []byte{0x00, 0x01, 0x0f, 0x10, '.', '/', '0', '?', '@', 'a', 'u',
 
 var specials = []string{"abc", "abcd", "abcdef", "ab?", "uYWJj", "a/b", "abc/", "abc\x00", "uAA", "YQ"}
 
+// thorough: strings up to length 3 over a 10-byte subset (drops 0x01, '0', 'u', 0x7f)
+var alphabet3 = []byte{0x00, 0x0f, 0x10, '.', '/', '?', '@', 'a', 0x80, 0xff}
+
 func stringPool(maxLen int) []string {
 	out := []string{}
+	alphabet := alphabet
+	if maxLen >= 3 {
+		alphabet = alphabet3
+	}
 	var rec func(prefix []byte)
 	rec = func(prefix []byte) {
 		if len(prefix) > 0 {
